@@ -461,7 +461,7 @@ func run(c Case, r *pbt.R) {
 					}
 				case "alert":
 				default:
-					if pre {
+					if pre && !sawFlight {
 						if c.KnownID && c.Ver == 12 && (k == "hs2" || k == "ccs" || k == "protected") {
 							resumedDirect = true // the stated exception: the hello resumes a session the server knows
 
